@@ -25,11 +25,11 @@ type Finding struct {
 type Result struct {
 	States       int            `json:"states"`
 	Edges        int            `json:"edges"`
-	Executed     int            `json:"executed"`      // transitions executed on the real application (DFS)
-	WalkSteps    int            `json:"walk_steps"`    // transitions executed by random walks
+	Executed     int            `json:"executed"`   // transitions executed on the real application (DFS)
+	WalkSteps    int            `json:"walk_steps"` // transitions executed by random walks
 	Walks        int            `json:"walks"`
-	Pruned       int            `json:"pruned"`        // edges below a divergence that were not executed
-	Unexplored   int            `json:"unexplored"`    // edges not reached because of the time budget
+	Pruned       int            `json:"pruned"`     // edges below a divergence that were not executed
+	Unexplored   int            `json:"unexplored"` // edges not reached because of the time budget
 	Findings     []Finding      `json:"findings"`
 	Counters     map[string]int `json:"counters"`
 	Samples      []any          `json:"samples"`
